@@ -133,6 +133,79 @@ Proof.
   vm_compute. reflexivity.
 Qed.
 
+(* ---- failed writes, more than one handle (findings C07-WRITEERR and C07-HANDLES, open) ----
+   Full statement: for every history whose operations go through either of two handles that one caching
+   provider handed out for the app, and whose writes may fail after the storage applied nothing, all, or
+   (a batch) the first k items of them, every output equals the output of the uncached storage under the same
+   fault plan (except dont_care).  The code as it is refutes it twice over (the two examples below): every
+   AppStorage call builds a cache of its own, and a failed write leaves the cache as it was.
+   Proved for the variant with one cache per app and failed writes marking their keys - the repairs proposed in
+   findings/C07/HANDLES.diff and WRITEERR.diff; the flags cache_provider_one_per_app and
+   cache_write_error_marks say which variant the source is. *)
+Theorem cache_transparent_failed_writes_and_handles_partial :
+  forall (K : bytes * bytes -> Prop),
+  (forall k1 k2, K k1 -> K k2 -> make_key (fst k1) (snd k1) = make_key (fst k2) (snd k2) -> k1 = k2) ->
+  forall xs, Forall (fun x => op_domain K (snd x)) xs ->
+  transparent_xrun true true true true (mkX ([], 0%Z) [] [] 0%Z) xs.
+Proof. exact (fun K Kinj xs => cache_transparent_x_proved K Kinj xs (mkX ([], 0%Z) [] [] 0%Z) (CI_init K)). Qed.
+
+(* one cache per handle (the code as it is): the first handle caches "not found", the second writes, the
+   first still answers "not found" *)
+Example second_handle_own_cache_refuted :
+  exists xs, list_eqb sout_eqb (xrun spec_step false true true true (mkX ([], 0%Z) [] [] 0%Z) xs)
+                               (under_frun spec_step ([], 0%Z) (map xfop xs)) = false.
+Proof.
+  exists [(false, FNone, OGet [97%N; 97%N] [1%N]); (true, FNone, OPut [97%N; 97%N] [1%N] [5%N]);
+          (false, FNone, OGet [97%N; 97%N] [1%N])].
+  vm_compute. reflexivity.
+Qed.
+
+(* a failed write leaves the cache as it was (the code as it is): a Put that times out after its effect, and a
+   batch applied in its first item, leave the old value in the cache *)
+Example failed_write_keeps_entry_refuted :
+  exists xs, list_eqb sout_eqb (xrun spec_step true true true false (mkX ([], 0%Z) [] [] 0%Z) xs)
+                               (under_frun spec_step ([], 0%Z) (map xfop xs)) = false.
+Proof.
+  exists [(false, FNone, OPut [97%N; 97%N] [1%N] [0%N]); (false, FErrAfter, OPut [97%N; 97%N] [1%N] [1%N]);
+          (false, FNone, OGet [97%N; 97%N] [1%N])].
+  vm_compute. reflexivity.
+Qed.
+
+Example partial_batch_keeps_entry_refuted :
+  exists xs, list_eqb sout_eqb (xrun spec_step true true true false (mkX ([], 0%Z) [] [] 0%Z) xs)
+                               (under_frun spec_step ([], 0%Z) (map xfop xs)) = false.
+Proof.
+  exists [(false, FNone, OPutBatch [([97%N; 97%N], [1%N], [0%N]); ([97%N; 97%N], [2%N], [0%N])]);
+          (false, FPartial 1, OPutBatch [([97%N; 97%N], [1%N], [1%N]); ([97%N; 97%N], [2%N], [1%N])]);
+          (false, FNone, OGetBatch [97%N; 97%N] [[1%N]; [2%N]])].
+  vm_compute. reflexivity.
+Qed.
+
+Example failed_writes_and_handles_nonvacuous :
+  let K := fun k : bytes * bytes => fst k = [97%N; 97%N] in
+  let xs := [(false, FNone, OGet [97%N; 97%N] [1%N]); (true, FNone, OPut [97%N; 97%N] [1%N] [5%N]);
+             (false, FNone, OGet [97%N; 97%N] [1%N]);
+             (true, FErrAfter, OPut [97%N; 97%N] [1%N] [6%N]); (false, FNone, OGet [97%N; 97%N] [1%N]);
+             (false, FErrBefore, OCad [97%N; 97%N] [1%N] [6%N]); (true, FNone, OTTLGet [97%N; 97%N] [1%N]);
+             (false, FNone, OPutBatch [([97%N; 97%N], [1%N], [0%N]); ([97%N; 97%N], [2%N], [0%N])]);
+             (true, FPartial 1, OPutBatch [([97%N; 97%N], [1%N], [1%N]); ([97%N; 97%N], [2%N], [1%N])]);
+             (false, FNone, OGetBatch [97%N; 97%N] [[1%N]; [2%N]]);
+             (false, FErrAfter, OIns [97%N; 97%N] [3%N] [7%N] 0%Z); (true, FNone, OGet [97%N; 97%N] [3%N]);
+             (false, FErrAfter, OCad [97%N; 97%N] [3%N] [7%N]); (true, FNone, OGet [97%N; 97%N] [3%N])] in
+  Forall (fun x => op_domain K (snd x)) xs /\
+  (forall k1 k2, K k1 -> K k2 -> make_key (fst k1) (snd k1) = make_key (fst k2) (snd k2) -> k1 = k2) /\
+  xrun spec_step true true true true (mkX ([], 0%Z) [] [] 0%Z) xs = under_frun spec_step ([], 0%Z) (map xfop xs) /\
+  under_frun spec_step ([], 0%Z) (map xfop xs) =
+    [RGet None; RUnit; RGet (Some [5%N]); RErr; RGet (Some [6%N]); RErr; RGet (Some [6%N]); RUnit; RErr;
+     RBatch [Some [1%N]; Some [0%N]]; RErr; RGet (Some [7%N]); RErr; RGet None].
+Proof.
+  cbn zeta. split; [|split; [|split]].
+  - repeat constructor; cbn; try reflexivity; try lia.
+  - intros [p1 c1] [p2 c2] H1 H2 E. cbn in *. subst. unfold make_key in E. apply app_inv_head in E. congruence.
+  - vm_compute. reflexivity.
+  - vm_compute. reflexivity.
+Qed.
+
 (* non-vacuity *)
 Example no_stale_nonvacuous :
   let sched := [PR 0; PR 0; PW; PW; PR 0; PR 1; PW; PR 1; PW; PR 1; PR 2; PR 2] in
@@ -179,4 +252,5 @@ Qed.
 
 Print Assumptions no_stale_read_after_completed_write.
 Print Assumptions cache_transparent.
+Print Assumptions cache_transparent_failed_writes_and_handles_partial.
 Print Assumptions cacheable_is_mark_fits.
